@@ -802,6 +802,23 @@ def seq_equal(a, b):
     return tuple(a) == tuple(b)
 
 
+def pyat(t, i):
+    """t[i] of a symbolic int sequence with Python's wrap-around of negative indices: the term the engine builds"""
+    n = f_len(t.t)
+    i = _i(i)
+    return f_at(t.t, z3.If(i < 0, i + n, i))
+
+
+def pyslice(t, lo, hi):
+    """t[lo:hi] (unit step) of a symbolic int sequence with Python's clamping of the bounds -- the very term the engine
+    builds for that expression, so that contract hints can talk about it"""
+    n = f_len(t.t)
+    a, b, _ = idx3(SliceV(lo if isinstance(lo, Opt) else Opt(False, _i(lo)), hi if isinstance(hi, Opt) else Opt(False, _i(hi)),
+                          Opt(True, 0)), n)
+    b = z3.If(b < a, a, b)
+    return SeqV(f_slice(t.t, a, b), t.kind)
+
+
 def forall_idx(t_or_n, body, name="j"):
     """forall 0 <= j < n : body(j).  n may be a sequence (its length)."""
     n = slen(t_or_n) if isinstance(t_or_n, (SeqV, TupV, tuple, list)) else t_or_n
